@@ -97,6 +97,14 @@ OVL_RUN = {"cmd": "overlay-index", "mode": "ovl", "cases": {"quick": 400, "thoro
 OVL_RULE = (" overlay-index: 5/8 overlay-chain cases (chains of 0..8 overlays over a dense key universe built from explicit change maps with the REAL Overlay / LiveOverlay: ancestor lists exact / short / long / "
             "wrong / reordered, commits and drops of ancestors, lookups of every key and value_iter over ranges whose bounds are on, just below and just above keys), 2/8 BeatreeIterator cases (staging maps merged "
             "with hand-built leaves), 1/8 real-store seek cases (overlay insertions / deletions merged with on-disk leaves, read off real path proofs); every answer vs the Lean mirror and vs BTreeMap folds.")
+# the real bit operations of the B-tree (bit_ops.rs) and the real BranchNodeBuilder / get_key on caller-supplied pages (hook H7) against
+# the Lean mirrors (driver mode `bitops`)
+BITOPS_RUNS = [{"cmd": "bitops", "mode": "bitops", "cases": {"quick": 40000, "thorough": 1000000}, "shards": {"quick": 4, "thorough": 16}},
+               {"cmd": "bitops-node", "mode": "bitops", "cases": {"quick": 1200, "thorough": 30000}, "shards": {"quick": 4, "thorough": 16}}]
+BITOPS_RULE = (" bitops: per case 16 lines through the REAL bit_ops.rs (first / last chunk masks, prefix_len, separator_len, separate, reconstruct_key, bitwise_memcpy) on inputs aimed at the 64-bit chunk "
+               "boundaries (bit offsets 0..8, lengths 0 / 1 / 63 / 64 / 65 / ..., keys sharing 0..255 bits, separators with many trailing zero bytes) and outside the documented contract (panic / silent garbage "
+               "must be predicted by the mirror); bitops-node: the REAL BranchNodeBuilder (new / push / push_chunk with every prefix relation) and get_key on caller-supplied pages, page bytes compared with the "
+               "Lean builder mirror byte for byte; oracle: naive bit-by-bit implementations in the harness.")
 IMG_RUN = {"cmd": "image", "mode": "image", "cases": {"quick": 24, "thorough": 400}, "shards": {"quick": 8, "thorough": 16}}
 # directed replay (corpus): history 18 of image seed 1000 — 1616 fat-valued keys, half of them under a 200-bit common prefix;
 # the commit that splits the branch node writes a separator whose last bit is lost (see KNOWN finding candidate F13 in the report)
@@ -144,8 +152,8 @@ PROPS = {
         "runs": IMG_CORPUS + [{"cmd": "image-prefix-shrink", "mode": "image", "cases": {"quick": 1, "thorough": 1}, "corpus": True},
                               {"cmd": "image-prefix-tail", "mode": "image", "cases": {"quick": 1, "thorough": 1}, "corpus": True},
                               {"cmd": "image-script", "mode": "image", "args": ["--focus", "script-freelist-reopen"], "cases": {"quick": 1, "thorough": 1}, "corpus": True},
-                              {"cmd": "image-branch-ops", "mode": "image", "cases": {"quick": 8, "thorough": 160}, "shards": {"quick": 8, "thorough": 16}}, dict(IMG_RUN), dict(WAL_RUN)] + CRASH_IMAGES,
-        "rule": IMG_RULE + CRASH_IMAGES_RULE + WAL_RULE,
+                              {"cmd": "image-branch-ops", "mode": "image", "cases": {"quick": 8, "thorough": 160}, "shards": {"quick": 8, "thorough": 16}}, dict(IMG_RUN), dict(WAL_RUN)] + BITOPS_RUNS + CRASH_IMAGES,
+        "rule": IMG_RULE + CRASH_IMAGES_RULE + WAL_RULE + BITOPS_RULE,
         "trusted_base": IMG_TB, "assumptions": IMG_ASSUME,
     },
     "C19": {
